@@ -52,6 +52,7 @@ def setter_shape(facts, tname, fname, err_variant):
         "fn": fn, "params": [p.get("name") for p in fn["params"]], "accept_cond": cond if accept_cond is cond else accept_cond,
         "accept_state": sa, "reject_state": sr, "err": sx.eval(err, st), "pre_fields": pre_fields,
         "accept_has_ok": any(has_ok_unit(s) for s in accept_stmts), "if_node": e,
+        "accept_early_returns": [x for s_ in accept_stmts for x in walk(s_) if x.get("k") == "return"],
     }
 
 
@@ -134,7 +135,8 @@ def rule_abs(rep, tname):
     want = {"provided": p, "original": "self." + o, "max_relative_ratio": "self." + m}
     gotf = {f[0]: show(f[1]) for f in err.get("fields", [])} if err.get("k") == "struct" else {}
     rep.ob(R, key + "/reject-reports", gotf == want, "RatioOutOfBounds fields %s, expected %s" % (gotf, want), where)
-    rep.ob(R, key + "/accept-ok", sh["accept_has_ok"], "accept path returns Ok", where)
+    rep.ob(R, key + "/accept-ok", sh["accept_has_ok"] and not sh["accept_early_returns"],
+           "accept path returns Ok only after performing its stores (early returns at lines %s)" % [x.get("ln") for x in sh["accept_early_returns"]], where)
     return sh, o, m
 
 
